@@ -194,4 +194,6 @@ def enumerate_apply_single(max_ops=3):
                             for C in itertools.combinations(pool, r):
                                 for tr in (1, 2, 3):
                                     cases.append(dict(orig_map=list(O), added_map=list(A), n_ops=n, transformation=tr, producer=P, consumers=sorted(C)))
+                                    # the generator emits list(set): the order of the consumer list is NOT part of the instruction's contract
+                                    if r == 2: cases.append(dict(orig_map=list(O), added_map=list(A), n_ops=n, transformation=tr, producer=P, consumers=sorted(C, reverse=True)))
     return cases
